@@ -110,6 +110,7 @@ func check(c Case) (kind, what string) {
 		// ICCProfile() agrees with parsing the payload directly
 		var md interface {
 			ICCProfile() (*icc.Profile, error)
+			ICCProfileData() ([]byte, error)
 		}
 		switch name {
 		case "png":
@@ -140,6 +141,27 @@ func check(c Case) (kind, what string) {
 				return k + "iccprofile-disagrees", fmt.Sprintf("Description via metadata %q/%v, direct %q/%v", d1, de1, d2, de2)
 			}
 		}
+		// accessor sequence: the raw bytes are still the embedded bytes after the parsed profile (and its
+		// description) has been asked for, on the same metadata value, and the slice handed out earlier is intact
+		var again []byte
+		var eAgain error
+		if pn, msg := ev.Guard(func() {
+			again, eAgain = md.ICCProfileData()
+			if rnd := len(c.Data) % 3; rnd > 0 {
+				for i := 0; i < rnd; i++ {
+					md.ICCProfile()
+					again, eAgain = md.ICCProfileData()
+				}
+			}
+		}); pn {
+			return k + "panic", msg
+		}
+		if eAgain != nil || !bytes.Equal(again, c.Expect.Profile) {
+			return k + "different-bytes-after-parse", fmt.Sprintf("after ICCProfile() the raw accessor returns %d bytes / error %v that differ from the %d embedded bytes (first difference at %d) (%s)", len(again), eAgain, len(c.Expect.Profile), firstDiff(again, c.Expect.Profile), c.Desc)
+		}
+		if !bytes.Equal(o.ICC, c.Expect.Profile) {
+			return k + "different-bytes-after-parse", fmt.Sprintf("the bytes handed out before changed (first difference at %d) (%s)", firstDiff(o.ICC, c.Expect.Profile), c.Desc)
+		}
 	}
 	return "", ""
 }
@@ -169,6 +191,15 @@ func payload(rt *rapid.T, n int) []byte {
 		over := 128 + 4 + 24 + len(desc)
 		if n-over >= 8 {
 			p := build.SimpleProfile(desc, n-over)
+			// header fields a profile consumer might normalise: flags, rendering intent, profile ID, creator
+			if rapid.Bool().Draw(rt, "hdrfields") {
+				copy(p[44:48], gen.Payload(rt, "flags", 4))
+				copy(p[64:68], gen.Payload(rt, "intent", 4))
+				copy(p[80:84], gen.Payload(rt, "creator", 4))
+				if rapid.Bool().Draw(rt, "id") {
+					copy(p[84:100], gen.Payload(rt, "id", 16))
+				}
+			}
 			// the embedded bytes are returned as they are, whatever the profile's own size field says: sometimes
 			// the field is smaller or larger than the payload, sometimes extra bytes follow the profile
 			switch rapid.IntRange(0, 5).Draw(rt, "sizefield") {
